@@ -14,7 +14,7 @@ use crate::{
   },
   obs::Obs,
   rng::Rng,
-  spec::{build_box, Spec},
+  spec::Spec,
 };
 
 pub fn def() -> PropDef {
@@ -43,12 +43,12 @@ fn gen(rng: &mut Rng, tier: Tier) -> Value {
   if rng.chance(1, 3) {
     cfg.max_text = 14;
   }
-  json!({ "spec": gen_case(rng, &cfg), "prelude": super::gen_prelude(rng) })
+  json!({ "spec": gen_case(rng, &cfg), "prelude": super::gen_prelude(rng), "share_instances": rng.chance(1, 2) })
 }
 
 fn check(case: &Value, obs: &mut Obs) {
   let spec = super::spec_of(case);
-  let src = build_box(&spec);
+  let src = super::build_under_test(case, &spec, obs);
   super::run_prelude(case, &src, obs);
   let prov = provenance(&spec);
   let text: String = String::from_utf8_lossy(&prov.iter().map(|p| p.0).collect::<Vec<u8>>()).to_string();
